@@ -107,3 +107,16 @@ func verifTrace(kind string, a int, b int, s string) {
 		verifSeq, time.Since(verifStart).Microseconds(), kind, a, b, s)
 	verifTraceMu.Unlock()
 }
+
+func verifPtr(p any) string { return fmt.Sprintf("%p", p) }
+
+func verifFlags(a bool, b bool) int {
+	n := 0
+	if a {
+		n |= 1
+	}
+	if b {
+		n |= 2
+	}
+	return n
+}
